@@ -1,10 +1,15 @@
 (* C19 - the rollback high-water mark.
 
    Modelled code: pkg/registry/trustverifier.go TrustedVerifier.VerifyIndex
-       lock(index-state.json.lock); state := LoadState; Verify(raw, anchors, ...);
+       lock(index-state.json.lock); state := LoadState
+       index.Verify(raw, anchors, state.LastVerifiedContentHash)
+            accepted when a trusted ROOT key signed the payload, or when a trusted FRESHNESS key
+            signed it and its content subtree hashes to the last root-verified content on record
        CheckRollback(version, state.Version)   -- refuses version < state.Version
-       CheckStaleness(timestamp, now, max); SaveState{Version: version}; unlock
-   index/freeze.go CheckRollback, index/state.go LoadState/SaveState (a missing file is mark 0).
+       CheckStaleness(timestamp, now, max)
+       SaveState{Version: version, LastVerifiedContentHash: (new hash iff root-verified)}; unlock
+   index/verify.go Verify, index/freeze.go CheckRollback, index/state.go LoadState/SaveState
+   (a missing file is mark 0 with no content on record).
 
    [verify_index] is one locked critical section; [tstep] is the same section cut into its
    atomic pieces for an arbitrary number of concurrent callers (the flock is what serialises
@@ -16,9 +21,14 @@ Local Open Scope Z_scope.
 
 Record hop := mkH {
   h_version : Z;      (* payload.index.version of the fetched index *)
-  h_sig_ok : bool;    (* index.Verify accepts the envelope (root signature by a trusted anchor) *)
+  h_root : bool;      (* a trusted root key's signature verifies *)
+  h_fsig : bool;      (* a trusted freshness key's signature verifies *)
+  h_content : nat;    (* identifies the content subtree (connectors + processors) *)
   h_fresh : bool;     (* CheckStaleness passes *)
   h_save_ok : bool }. (* SaveState succeeds *)
+
+(* index-state.json: the mark and the last root-verified content (None: nothing on record) *)
+Record hst := mkSt { st_mark : Z; st_hash : option nat }.
 
 Inductive hres := HAccept | HIntegrity | HRollback | HStale | HSaveFail.
 
@@ -29,30 +39,55 @@ Definition hres_eqb (a b : hres) : bool :=
   | _, _ => false
   end.
 
-(* the decision taken with the mark [m] that was loaded *)
-Definition decide_index (m : Z) (o : hop) : hres + Z :=
-  if negb (h_sig_ok o) then inl HIntegrity
-  else if h_version o <? m then inl HRollback
-  else if negb (h_fresh o) then inl HStale
-  else inr (h_version o).
+Definition hash_is (h : option nat) (c : nat) : bool :=
+  match h with Some x => Nat.eqb x c | None => false end.
 
-Definition verify_index (m : Z) (o : hop) : hres * Z :=
-  match decide_index m o with
-  | inl r => (r, m)
-  | inr v => if h_save_ok o then (HAccept, v) else (HSaveFail, m)
+(* index.Verify: root-verified, or freshness-verified over unchanged content *)
+Definition sig_ok (h : option nat) (o : hop) : bool :=
+  h_root o || (h_fsig o && hash_is h (h_content o)).
+
+(* the decision taken with the state that was loaded: a refusal, or the state to persist -
+   the version ALWAYS, the content only when root-verified *)
+Definition decide_index (st : hst) (o : hop) : hres + hst :=
+  if negb (sig_ok (st_hash st) o) then inl HIntegrity
+  else if h_version o <? st_mark st then inl HRollback
+  else if negb (h_fresh o) then inl HStale
+  else inr (mkSt (h_version o) (if h_root o then Some (h_content o) else st_hash st)).
+
+Definition verify_index (st : hst) (o : hop) : hres * hst :=
+  match decide_index st o with
+  | inl r => (r, st)
+  | inr st' => if h_save_ok o then (HAccept, st') else (HSaveFail, st)
   end.
 
-(* a sequence of calls one after the other: results and the mark after each call *)
-Fixpoint hrun (m : Z) (ops : list hop) : list (hres * Z) :=
+(* a sequence of calls one after the other: results and the state after each call *)
+Fixpoint hrun (st : hst) (ops : list hop) : list (hres * hst) :=
   match ops with
   | [] => []
-  | o :: r => let '(res, m') := verify_index m o in (res, m') :: hrun m' r
+  | o :: r => let '(res, st') := verify_index st o in (res, st') :: hrun st' r
+  end.
+
+Fixpoint hfinal (st : hst) (ops : list hop) : hst :=
+  match ops with
+  | [] => st
+  | o :: r => hfinal (snd (verify_index st o)) r
+  end.
+
+Definition accepted (r : hres) : bool := match r with HAccept => true | _ => false end.
+
+(* versions of the calls that were accepted, in order *)
+Fixpoint accepted_versions (st : hst) (ops : list hop) : list Z :=
+  match ops with
+  | [] => []
+  | o :: r => let '(res, st') := verify_index st o in
+              (if accepted res then [h_version o] else []) ++ accepted_versions st' r
   end.
 
 (* ---------- concurrent callers ---------- *)
-Inductive pc := PIdle | PLocked | PLoaded (m : Z) | PSaving (v : Z) | PDone (r : hres).
+Inductive pc := PIdle | PLocked | PLoaded (s : hst) | PSaving (s : hst) | PDone (r : hres).
 
-Record sys := mkSys { lock : option nat; mark : Z; pcs : nat -> pc }.
+Record sys := mkSys { lock : option nat; cur : hst; pcs : nat -> pc }.
+Definition mark (sy : sys) : Z := st_mark (cur sy).
 
 Definition upd (f : nat -> pc) (i : nat) (x : pc) : nat -> pc :=
   fun j => if Nat.eqb j i then x else f j.
@@ -65,24 +100,24 @@ Definition tstep (uselock : bool) (ops : nat -> hop) (sy : sys) (i : nat) : sys 
   | PIdle =>
       if uselock then
         match lock sy with
-        | None => mkSys (Some i) (mark sy) (upd (pcs sy) i PLocked)
+        | None => mkSys (Some i) (cur sy) (upd (pcs sy) i PLocked)
         | Some _ => sy
         end
-      else mkSys (lock sy) (mark sy) (upd (pcs sy) i PLocked)
-  | PLocked => mkSys (lock sy) (mark sy) (upd (pcs sy) i (PLoaded (mark sy)))
-  | PLoaded m =>
-      match decide_index m (ops i) with
-      | inl r => mkSys (release uselock (lock sy)) (mark sy) (upd (pcs sy) i (PDone r))
-      | inr v => mkSys (lock sy) (mark sy) (upd (pcs sy) i (PSaving v))
+      else mkSys (lock sy) (cur sy) (upd (pcs sy) i PLocked)
+  | PLocked => mkSys (lock sy) (cur sy) (upd (pcs sy) i (PLoaded (cur sy)))
+  | PLoaded s =>
+      match decide_index s (ops i) with
+      | inl r => mkSys (release uselock (lock sy)) (cur sy) (upd (pcs sy) i (PDone r))
+      | inr s' => mkSys (lock sy) (cur sy) (upd (pcs sy) i (PSaving s'))
       end
-  | PSaving v =>
+  | PSaving s' =>
       if h_save_ok (ops i)
-      then mkSys (release uselock (lock sy)) v (upd (pcs sy) i (PDone HAccept))
-      else mkSys (release uselock (lock sy)) (mark sy) (upd (pcs sy) i (PDone HSaveFail))
+      then mkSys (release uselock (lock sy)) s' (upd (pcs sy) i (PDone HAccept))
+      else mkSys (release uselock (lock sy)) (cur sy) (upd (pcs sy) i (PDone HSaveFail))
   | PDone _ => sy
   end.
 
-Definition init (m0 : Z) : sys := mkSys None m0 (fun _ => PIdle).
+Definition init (s0 : hst) : sys := mkSys None s0 (fun _ => PIdle).
 
 Fixpoint exec (uselock : bool) (ops : nat -> hop) (sy : sys) (sched : list nat) : sys :=
   match sched with
@@ -104,44 +139,66 @@ Fixpoint nondecreasing (m : Z) (l : list Z) : bool :=
   end.
 
 (* ---------- what is checked on observed calls ---------- *)
-Definition accepted (r : hres) : bool := match r with HAccept => true | _ => false end.
 
-(* a batch of concurrent calls that started with mark m0 and ended with mark mend: the exact
-   condition for the observed results to be explained by SOME order of the critical sections *)
-Definition batch_explained (m0 : Z) (log : list (hop * hres)) (mend : Z) : bool :=
+(* could the signatures of [o] have been accepted at some moment of a batch that started with
+   content [h0] on record?  root-signed: always; freshness-only: when its content is the one on
+   record at the start or the content of a root-signed call accepted in the batch *)
+Definition sig_possible (h0 : option nat) (log : list (hop * hres)) (o : hop) : bool :=
+  h_root o
+  || (h_fsig o && (hash_is h0 (h_content o)
+                   || existsb (fun x => accepted (snd x) && h_root (fst x)
+                                        && Nat.eqb (h_content (fst x)) (h_content o)) log)).
+
+(* ... and could they have been refused: not root-signed, and no freshness signature, or other
+   content on record at the start, or a root-signed call with other content accepted in the batch *)
+Definition sig_refusable (h0 : option nat) (log : list (hop * hres)) (o : hop) : bool :=
+  negb (h_root o)
+  && (negb (h_fsig o) || negb (hash_is h0 (h_content o))
+      || existsb (fun x => accepted (snd x) && h_root (fst x)
+                           && negb (Nat.eqb (h_content (fst x)) (h_content o))) log).
+
+(* a batch of concurrent calls that started in state (m0, h0) and ended with mark mend:
+   conditions every order of the critical sections satisfies (they are also sufficient when no
+   call of the batch is freshness-only) *)
+Definition batch_explained (m0 : Z) (h0 : option nat) (log : list (hop * hres)) (mend : Z) : bool :=
   let acc := map (fun x => h_version (fst x)) (filter (fun x => accepted (snd x)) log) in
   let top := fold_left Z.max acc m0 in
   (mend =? top)
   && forallb (fun x =>
        let o := fst x in
        match snd x with
-       | HAccept => h_sig_ok o && h_fresh o && h_save_ok o && (m0 <=? h_version o)
-       | HIntegrity => negb (h_sig_ok o)
-       | HRollback => h_sig_ok o && (h_version o <? top)
-       | HStale => h_sig_ok o && negb (h_fresh o) && (m0 <=? h_version o)
-       | HSaveFail => h_sig_ok o && h_fresh o && negb (h_save_ok o) && (m0 <=? h_version o)
+       | HAccept => sig_possible h0 log o && h_fresh o && h_save_ok o && (m0 <=? h_version o)
+       | HIntegrity => sig_refusable h0 log o
+       | HRollback => sig_possible h0 log o && (h_version o <? top)
+       | HStale => sig_possible h0 log o && negb (h_fresh o) && (m0 <=? h_version o)
+       | HSaveFail => sig_possible h0 log o && h_fresh o && negb (h_save_ok o) && (m0 <=? h_version o)
        end) log.
 
 (* the property itself, trusting only which calls returned without error: the mark never
-   decreases, it only ever becomes the version of a call that passed every check, and no index
-   older than the mark the batch started with is accepted *)
-Definition batch_monitor (m0 : Z) (log : list (hop * hres)) (mend : Z) : bool :=
+   decreases, it ends as the highest accepted version (or stays), only calls whose signatures
+   could be accepted and that are fresh and not older than the starting mark are accepted *)
+Definition batch_monitor (m0 : Z) (h0 : option nat) (log : list (hop * hres)) (mend : Z) : bool :=
   (m0 <=? mend)
   && forallb (fun x => negb (accepted (snd x))
-                       || (h_sig_ok (fst x) && h_fresh (fst x) && (m0 <=? h_version (fst x))
+                       || (sig_possible h0 log (fst x) && h_fresh (fst x) && (m0 <=? h_version (fst x))
                            && (h_version (fst x) <=? mend))) log
   && ((mend =? m0)
-      || existsb (fun x => accepted (snd x) && h_sig_ok (fst x) && h_fresh (fst x)
-                           && (h_version (fst x) =? mend)) log).
+      || existsb (fun x => accepted (snd x) && (h_version (fst x) =? mend)) log).
 
-(* sequential calls: marks never decrease, move only on an accepted call that passed every
-   check, to that call's version *)
-Fixpoint seq_monitor (m : Z) (log : list (hop * (bool * Z))) : bool :=   (* (op, (returned nil, mark after)) *)
+(* sequential calls, log = (call, (returned nil, mark in the state file afterwards)).
+   [m] the mark before, [top] the highest version accepted so far (or the initial mark),
+   [h] the content of the last accepted root-signed call (or the initial one):
+   - the mark never decreases and moves only on an accepted call,
+   - after EVERY accepted call the persisted mark is that call's version,
+   - an index older than ANY previously accepted version is refused,
+   - only calls that are fresh and carry acceptable signatures are accepted *)
+Fixpoint seq_monitor (m top : Z) (h : option nat) (log : list (hop * (bool * Z))) : bool :=
   match log with
   | [] => true
   | (o, (ok, m')) :: r =>
       (m <=? m')
-      && (negb ok || (h_sig_ok o && h_fresh o && (m <=? h_version o) && (m' =? h_version o)))
+      && (negb ok || (sig_ok h o && h_fresh o && (top <=? h_version o) && (m' =? h_version o)))
       && (ok || (m' =? m))
-      && seq_monitor m' r
+      && seq_monitor m' (if ok then Z.max top (h_version o) else top)
+                     (if ok && h_root o then Some (h_content o) else h) r
   end.
